@@ -23,6 +23,11 @@ CLASSES = {
     # predicates read); frames below the top are not modelled
     "EndProg": {"mode_kind": "int", "parenlevel": "int", "text": "str", "contline": "str", "start": "pos", "quote": "str"},
     "EPStack": {"n": "nat", "top": "obj:EndProg"},
+    # an ast node as far as the error helpers look at it: the four position attributes (end_* may be None in general; the
+    # grammar only passes nodes built with LOCATIONS, see C04)
+    "PosNode": {"lineno": "int", "col_offset": "int", "end_lineno": "int", "end_col_offset": "int"},
+    "SyntaxError": {"msg": "str", "filename": "str", "lineno": "int", "offset": "int", "text": "str", "end_lineno": "int", "end_offset": "int",
+                    "bare": "bool", "nargs": "int"},
     "TokenizerState": {
         "lnum": "int", "parenlev": "int", "continued": "bool", "indents": "seq[int]", "last_line": "str", "line": "str",
         "pos": "int", "max": "int", "end_progs": "obj:EPStack",
@@ -105,6 +110,26 @@ def sf_prefix_of(ex, st, a, b):
 
 def sf_tok_type(ex, st, name):
     return z3.IntVal(ex.token_enum[z3.simplify(lift(name)).as_string()])
+
+
+def _tok_wf(t):
+    return z3.And(Tok.sl(t) >= 1, Tok.sc(t) >= 0, Tok.ec(t) >= 0, Tok.el(t) >= Tok.sl(t), z3.Or(Tok.el(t) > Tok.sl(t), Tok.ec(t) >= Tok.sc(t)))
+
+
+def sf_tok_wf(ex, st, t):
+    """positions of a token: line >= 1, column >= 0, start <= end (C08)"""
+    return _tok_wf(t)
+
+
+def sf_toks_wf(ex, st, tk):
+    """every raw token of the stream, every cached token and every pushed-back token has well-formed positions
+    (contract of _tokenize for the stream; preserved by peek)"""
+    j = z3.Int("tw!q")
+    f = tk.fields
+    g = f["_tokengen"].items
+    return z3.And(z3.ForAll([j], z3.Implies(z3.And(j >= 0, j < z3.Length(g)), _tok_wf(g[j]))),
+                  z3.ForAll([j], z3.Implies(z3.And(j >= 0, j < z3.Length(f["_tokens"])), _tok_wf(f["_tokens"][j]))),
+                  z3.ForAll([j], z3.Implies(z3.And(j >= 0, j < z3.Length(f["_stack"])), _tok_wf(f["_stack"][j]))))
 
 
 def sf_em_cached(ex, st, tk):
@@ -209,6 +234,35 @@ def sf_lines_left(ex, st, rl):
     return z3.Length(g.items) - g.pos
 
 
-SPEC_FUNCS = {"lines_left": sf_lines_left, "indent_col": sf_indent_col, "indents_wf": sf_indents_wf, "is_blank_char": sf_is_blank_char, "last": sf_last, "lr_cache_ok": sf_lr_cache_ok, "cache_ok": sf_cache_ok, "cache_has": sf_cache_has, "cache_end": sf_cache_end, "cache_tree": sf_cache_tree, "em_cached": sf_em_cached, "tk_ok": sf_tk_ok, "can_peek": sf_can_peek, "layout": sf_layout, "cache_wf": sf_cache_wf, "truthy": sf_truthy, "is_none": sf_is_none, "pos_le": sf_pos_le,
+def sf_node_wf(ex, st, n):
+    if is_tok(n):
+        return _tok_wf(n)
+    f = n.fields
+    return z3.And(f["lineno"] >= 1, f["col_offset"] >= 0, f["end_col_offset"] >= 0, f["end_lineno"] >= f["lineno"],
+                  z3.Or(f["end_lineno"] > f["lineno"], f["end_col_offset"] >= f["col_offset"]))
+
+
+def sf_wf_error(ex, st, e, parser):
+    """C11: a message, the parser's file name, line >= 1, 1-based column, end not before start, six-element args"""
+    f = e.fields
+    if any(k not in f for k in ("nargs", "filename", "lineno", "offset", "end_lineno", "end_offset")):
+        return z3.BoolVal(False)          # a bare SyntaxError(msg): no file name, no position
+    return z3.And(z3.Not(f["bare"]), f["nargs"] == 6, f["filename"] == parser.fields["filename"], f["lineno"] >= 1, f["offset"] >= 1,
+                  z3.Or(f["end_lineno"] > f["lineno"], z3.And(f["end_lineno"] == f["lineno"], f["end_offset"] >= f["offset"])))
+
+
+def sf_node_start(ex, st, n):
+    if is_tok(n):
+        return PyTuple([Tok.sl(n), Tok.sc(n)])
+    return PyTuple([n.fields["lineno"], n.fields["col_offset"]])
+
+
+def sf_node_end(ex, st, n):
+    if is_tok(n):
+        return PyTuple([Tok.el(n), Tok.ec(n)])
+    return PyTuple([n.fields["end_lineno"], n.fields["end_col_offset"]])
+
+
+SPEC_FUNCS = {"node_start": sf_node_start, "node_end": sf_node_end, "node_wf": sf_node_wf, "wf_error": sf_wf_error, "tok_wf": sf_tok_wf, "toks_wf": sf_toks_wf, "lines_left": sf_lines_left, "indent_col": sf_indent_col, "indents_wf": sf_indents_wf, "is_blank_char": sf_is_blank_char, "last": sf_last, "lr_cache_ok": sf_lr_cache_ok, "cache_ok": sf_cache_ok, "cache_has": sf_cache_has, "cache_end": sf_cache_end, "cache_tree": sf_cache_tree, "em_cached": sf_em_cached, "tk_ok": sf_tk_ok, "can_peek": sf_can_peek, "layout": sf_layout, "cache_wf": sf_cache_wf, "truthy": sf_truthy, "is_none": sf_is_none, "pos_le": sf_pos_le,
               "endmarker_last": sf_endmarker_last, "endmarker_pulled": sf_endmarker_pulled, "gen_pos": sf_gen_pos,
               "gen_len": sf_gen_len, "gen_item": sf_gen_item, "prefix_of": sf_prefix_of, "tok_type": sf_tok_type}
